@@ -1,4 +1,5 @@
 import KaVerif.Gen.Bodies
+import KaVerif.Model.EvalG
 import KaVerif.Lemmas.EvalLemmas
 /-
   Lemmas for Props/Bodies.lean: the function bodies TRANSLATED from the Python source (`Gen/Bodies.lean`,
@@ -108,6 +109,15 @@ theorem wt2 {s1 s2 : Shape} {args : List Val} (h : wellTyped [s1, s2] Option.non
   | [], h => simp [wellTyped] at h
   | [_], h => simp [wellTyped] at h
   | _ :: _ :: _ :: _, h => simp [wellTyped] at h
+
+theorem wt3 {s1 s2 s3 : Shape} {args : List Val} (h : wellTyped [s1, s2, s3] Option.none args = true) :
+    ∃ x y z, args = [x, y, z] ∧ s1.holds x = true ∧ s2.holds y = true ∧ s3.holds z = true := by
+  match args, h with
+  | [x, y, z], h => exact ⟨x, y, z, rfl, by simpa [wellTyped, and_assoc] using h⟩
+  | [], h => simp [wellTyped] at h
+  | [_], h => simp [wellTyped] at h
+  | [_, _], h => simp [wellTyped] at h
+  | _ :: _ :: _ :: _ :: _, h => simp [wellTyped] at h
 
 /-- a table keyed by distinct strings: membership is lookup -/
 theorem lookup_of_mem_nodup {α : Type} (l : List (String × α)) (k : String) (v : α)
@@ -630,6 +640,118 @@ theorem lambda_range_agree (lo hi : Int) (hb : (hi + 1 - lo).toNat ≤ maxRange)
 
 end Arrays
 
+/-! #### `ka_range` (a `while` loop: `PyRt.pyWhile` with a round bound on the translated side, `kaRangeLoop` with the
+   model's own bound on the hand-written side) -/
+
+section KaRange
+variable {rec : Disp}
+open Gen.Bodies
+
+/-- the loop condition and the loop body of the translated `ka_range`, as `gen_bodies.py` emits them -/
+def krCond (rec : Disp) (hi : Val) : List Val × Val → R Bool := fun (st : List Val × Val) => do
+  let (_result, curr) := st
+  let t5 ← rec "<=" [curr, hi]
+  let t6 ← pyTruthy t5
+  pure t6
+
+def krBody (rec : Disp) (step : Val) : List Val × Val → R (List Val × Val) := fun (st : List Val × Val) => do
+  let (result, curr) := st
+  let result := (result ++ [curr])
+  let nxt ← rec "+" [curr, step]
+  let t8 ← rec "<" [curr, nxt]
+  let t9 ← pyTruthy t8
+  if (!t9) then do
+    pyRaise .funArg
+  else do
+    let curr : Val := nxt
+    pure (result, curr)
+
+theorem ka_range_unfold (fuel : Nat) (lo hi step : Val) :
+    ka_range fuel rec lo hi step = (do
+      let t1 ← rec "<" [(PyRt.pyInt 0), step]
+      let t2 ← pyTruthy t1
+      if (!t2) then pyRaise .funArg else do
+        let t3 ← rec "<=" [lo, hi]
+        let t4 ← pyTruthy t3
+        if (!t4) then pyRaise .funArg else do
+          let st ← pyWhile fuel (([] : List Val), lo) (krCond rec hi) (krBody rec step)
+          pure (Val.arr st.1)) := rfl
+
+theorem ka_range_loop (h : NumDisp rec) (hi step : Num) (f1 f2 : Nat) (c : Num) (racc : List Val)
+    (h1 : (pyWhile f1 (racc.reverse, Val.num c) (krCond rec (.num hi)) (krBody rec (.num step)) >>= fun st => pure (Val.arr st.1))
+        ≠ .error .fuel)
+    (h2 : kaRangeLoop rec hi step f2 c racc ≠ .error (.unmodelled "huge range")) :
+    (pyWhile f1 (racc.reverse, Val.num c) (krCond rec (.num hi)) (krBody rec (.num step)) >>= fun st => pure (Val.arr st.1))
+      = kaRangeLoop rec hi step f2 c racc := by
+  induction f1 generalizing f2 c racc with
+  | zero => exact absurd rfl h1
+  | succ f1 ih =>
+    cases f2 with
+    | zero => exact absurd rfl h2
+    | succ f2 =>
+      simp only [pyWhile, kaRangeLoop, krCond, krBody, h.c2 "<=" _ _ (by decide), h.c2 "<" _ _ (by decide), h.c2 "+" _ _ (by decide),
+        bind_assoc, ok_bind, pure_bind, pyTruthy, pure_def] at h1 h2 ⊢
+      cases hle : rnum rec "<=" [c, hi] with
+      | error e => simp only [hle, error_bind]
+      | ok r =>
+        simp only [hle, ok_bind] at h1 h2 ⊢
+        cases ht : truthy r with
+        | false => simp only [ht, Bool.false_eq_true, if_false, ok_bind, pure_def]
+        | true =>
+          simp only [ht, if_true] at h1 h2 ⊢
+          cases hadd : rnum rec "+" [c, step] with
+          | error e => simp only [hadd, error_bind]
+          | ok nx =>
+            simp only [hadd, ok_bind] at h1 h2 ⊢
+            cases hg : rnum rec "<" [c, nx] with
+            | error e => simp only [hg, error_bind]
+            | ok g =>
+              simp only [hg, ok_bind] at h1 h2 ⊢
+              cases htg : truthy g with
+              | false => simp only [htg, Bool.not_false, if_true, pyRaise_def, raise_def, error_bind]
+              | true =>
+                simp only [htg, Bool.not_true, Bool.false_eq_true, if_false, ok_bind] at h1 h2 ⊢
+                have hrev : racc.reverse ++ [Val.num c] = (Val.num c :: racc).reverse := by simp
+                rw [hrev] at h1 ⊢
+                exact ih f2 nx (Val.num c :: racc) h1 h2
+
+
+/-- **`range(lo, hi, step)`**: the body translated from the source (with any round bound `fuel` for its `while`) and the
+    hand-written `bKaRange` give the same answer — the two guards, the list, FunctionArgError for a round without
+    progress, an error of `dispatch` — unless one of them stops at its OWN bound (the translated loop after `fuel`
+    rounds: `.fuel`; the hand-written one: `unmodelled "huge range"`, before the loop for a nominal length beyond
+    `maxRange` or after `kaRangeFuel` rounds) -/
+theorem ka_range_agree (h : NumDisp rec) (fuel : Nat) (lo hi step : Num)
+    (h1 : ka_range fuel rec (.num lo) (.num hi) (.num step) ≠ .error .fuel)
+    (h2 : bKaRange rec [.num lo, .num hi, .num step] ≠ .error (.unmodelled "huge range")) :
+    ka_range fuel rec (.num lo) (.num hi) (.num step) = bKaRange rec [.num lo, .num hi, .num step] := by
+  rw [ka_range_unfold] at h1 ⊢
+  simp only [bKaRange, PyRt.pyInt, h.c2 "<=" _ _ (by decide), h.c2 "<" _ _ (by decide), bind_assoc, ok_bind, pyTruthy,
+    pyRaise_def, raise_def] at h1 h2 ⊢
+  cases h0 : rnum rec "<" [.int 0, step] with
+  | error e => simp only [h0, error_bind]
+  | ok r0 =>
+    simp only [h0, ok_bind] at h1 h2 ⊢
+    cases ht0 : truthy r0 with
+    | false => simp only [ht0, Bool.not_false, if_true]
+    | true =>
+      simp only [ht0, Bool.not_true, Bool.false_eq_true, if_false] at h1 h2 ⊢
+      cases hl : rnum rec "<=" [lo, hi] with
+      | error e => simp only [hl, error_bind]
+      | ok r1 =>
+        simp only [hl, ok_bind] at h1 h2 ⊢
+        cases ht1 : truthy r1 with
+        | false => simp only [ht1, Bool.not_false, if_true]
+        | true =>
+          simp only [ht1, Bool.not_true, Bool.false_eq_true, if_false] at h1 h2 ⊢
+          by_cases hng : ((hi.toRat - lo.toRat) / step.toRat).floor.toNat + 3 > maxRange
+          · simp only [hng, if_true] at h2; exact absurd rfl h2
+          · simp only [hng, if_false] at h2 ⊢
+            exact ka_range_loop h hi step fuel _ lo [] h1 h2
+
+end KaRange
+
+
 /-! ### `NumDisp` holds for the real dispatcher -/
 
 /-- the answer is a number whenever there is one -/
@@ -709,5 +831,92 @@ theorem numDisp_dispatchV (n : Nat) : NumDisp (fun nm as => dispatchV n nm as []
             obtain ⟨m, rfl⟩ := numCode_run code ht _ _ r hr
             simp only [hca, hr, bind, Except.bind] at hv
             exact simplifyVal_num m v hv
+
+section EvalGInstance
+open Parser EvalG
+
+/-! ### `Model/EvalG.lean`'s parameterised evaluator at the hand-written dispatcher IS `Model/Eval.lean`'s -/
+
+/-- unfold both definitions, rewrite the sub-terms by the induction hypotheses; what remains differs only in the names of the
+    auxiliary `match` functions the two definitions were compiled to (closed by `rfl`) -/
+syntax "inst_tac" "[" Lean.Parser.Tactic.simpLemma,* "]" : tactic
+macro_rules
+  | `(tactic| inst_tac [$ls,*]) => `(tactic| ((try simp only [$ls,*]); (try rfl)))
+
+mutual
+theorem evalEW_top : (t : Ast) → ∀ env : Env, evalEW dispatchTop env t = evalE env t
+  | .num _ => fun _ => by inst_tac [evalEW, evalE]
+  | .str _ => fun _ => by inst_tac [evalEW, evalE]
+  | .inst _ => fun _ => by inst_tac [evalEW, evalE]
+  | .var _ => fun _ => by inst_tac [evalEW, evalE]
+  | .bin o l r => fun env => by inst_tac [evalEW, evalE, evalEW_top l, evalEW_top r]
+  | .sign neg x => fun env => by inst_tac [evalEW, evalE, evalEW_top x]
+  | .fact x => fun env => by inst_tac [evalEW, evalE, evalEW_top x]
+  | .range lo hi => fun env => by inst_tac [evalEW, evalE, evalEW_top lo, evalEW_top hi]
+  | .interval lo hi => fun env => by inst_tac [evalEW, evalE, evalEW_top lo, evalEW_top hi]
+  | .cmp1 o x y => fun env => by inst_tac [evalEW, evalE, evalEW_top x, evalEW_top y]
+  | .cmp2 o1 o2 x y z => fun env => by inst_tac [evalEW, evalE, evalEW_top x, evalEW_top y, evalEW_top z]
+  | .call name args kws => fun env => by inst_tac [evalEW, evalE, evalEsW_top args, evalKsW_top kws]
+  | .quantity t sig => fun env => by inst_tac [evalEW, evalE, evalEW_top t]
+  | .convert t sig => fun env => by inst_tac [evalEW, evalE, evalEW_top t]
+  | .array xs => fun env => by inst_tac [evalEW, evalE, evalEsW_top xs]
+  | .compr body gens conds => fun env => by
+    have hb : (fun env' => evalEW dispatchTop env' body) = (fun env' => evalE env' body) := funext (evalEW_top body)
+    inst_tac [evalEW, evalE, evalKsW_top gens, evalCondsW_top conds, hb]
+  | .assign _ _ => fun _ => by inst_tac [evalEW, evalE]
+  | .stmts _ => fun _ => by inst_tac [evalEW, evalE]
+theorem evalEsW_top : (ts : List Ast) → ∀ env : Env, evalEsW dispatchTop env ts = evalEs env ts
+  | [] => fun _ => by inst_tac [evalEsW, evalEs]
+  | t :: ts => fun env => by inst_tac [evalEsW, evalEs, evalEW_top t, evalEsW_top ts]
+theorem evalKsW_top : (ts : List (String × Ast)) → ∀ env : Env, evalKsW dispatchTop env ts = evalKs env ts
+  | [] => fun _ => by inst_tac [evalKsW, evalKs]
+  | (k, t) :: ts => fun env => by inst_tac [evalKsW, evalKs, evalEW_top t, evalKsW_top ts]
+theorem evalCondsW_top : (cs : List Ast) → evalCondsW dispatchTop cs = evalConds cs
+  | [] => by inst_tac [evalCondsW, evalConds]
+  | c :: cs => by
+    have hc : (fun env' => evalEW dispatchTop env' c) = (fun env' => evalE env' c) := funext (evalEW_top c)
+    inst_tac [evalCondsW, evalConds, hc, evalCondsW_top cs]
+end
+
+theorem evalStmtW_top (env : Env) (t : Ast) : evalStmtW dispatchTop env t = evalStmt env t := by
+  cases t <;> inst_tac [evalStmtW, evalStmt, evalEW_top]
+
+theorem runStmtsW_top (env : Env) (last : Val) (ss : List Ast) : runStmtsW dispatchTop env last ss = runStmts env last ss := by
+  induction ss generalizing env last with
+  | nil => rfl
+  | cons s rest ih =>
+    simp only [runStmtsW, runStmts, evalStmtW_top]
+    cases h : evalStmt env s with
+    | mk env' r =>
+      cases r with
+      | ok v => exact ih env' v
+      | error e => rfl
+
+theorem runProgramW_top (env : Env) (t : Ast) : runProgramW dispatchTop env t = runProgram env t := by
+  cases t <;> inst_tac [runProgramW, runProgram, runStmtsW_top, evalStmtW_top]
+
+theorem evalAstW_top (env : Env) (t : Ast) : evalAstW dispatchTop env t = evalAst env t := by
+  inst_tac [evalAstW, evalAst, runProgramW_top]
+
+theorem runTreeW_top (env : Env) (t : Ast) : runTreeW dispatchTop env t = runTree env t := by
+  inst_tac [runTreeW, runTree, runProgramW_top]
+
+theorem runTokensW_top (env : Env) (toks : List Token) : runTokensW dispatchTop env toks = runTokens env toks := by
+  inst_tac [runTokensW, runTokens, runTreeW_top]
+
+theorem runInW_top (env : Env) (s : List Char) : runInW dispatchTop env s = runIn env s := by
+  inst_tac [runInW, runIn, runTokensW_top]
+
+theorem runTextW_top (s : String) : runTextW dispatchTop s = runText s := by
+  inst_tac [runTextW, runText, runInW_top]
+
+theorem runSessionW_top (env : Env) (lost : Bool) (ss : List String) :
+    runSessionW dispatchTop env lost ss = runSession env lost ss := by
+  induction ss generalizing env lost with
+  | nil => inst_tac [runSessionW, runSession]
+  | cons s rest ih =>
+    inst_tac [runSessionW, runSession, runInW_top, ih]
+
+end EvalGInstance
 
 end KaVerif.Bodies
